@@ -225,6 +225,42 @@ SnapElev(g, nm, z, line) ==
                /\ pkey \in DOMAIN memo => Chk("C16.ElevationIsPrefixResult", line, z = memo[pkey].core.zout)
   /\ UNCHANGED fvars
 
+KernelApply(g, k, line) ==
+  /\ g \in DOMAIN graphs /\ graphs[g].cur # <<>>
+  /\ LET G == graphs[g]
+         x == Ctx(G)
+         r == G.cur
+         key == [k |-> "kernel", g |-> G.key, dir |-> k.dir]
+         refused == k.thr > 1 /\ k.dir = "depth"
+     IN /\ Has("C10") =>
+             /\ Chk("C10.Kernel.UnsupportedOrderRefused", line, (k.threw # "") = refused)
+             /\ ~refused =>
+                  /\ Chk("C10.Kernel.ExactlyOnce", line, KernelExactlyOnce(x, k))
+                  /\ (k.dir # "any") => Chk("C10.Kernel.ReceiversFirst", line, KernelReceiversFirst(x, r, k))
+                  /\ Chk("C10.Kernel.Output", line, KernelOutput(x, r, k))
+                  /\ (key \in DOMAIN memo) => Chk("C10.Kernel.SameAsOtherRuns", line, memo[key] = k.out)
+        /\ memo' = IF key \in DOMAIN memo \/ k.threw # "" THEN memo ELSE (key :> k.out) @@ memo
+  /\ UNCHANGED <<grid, graphs>>
+
+Spl(g, e, line) ==
+  /\ g \in DOMAIN graphs /\ graphs[g].cur # <<>>
+  /\ LET G == graphs[g]
+         x == Ctx(G)
+         r == G.cur
+     IN /\ Has("C12") => Chk("C12.NonlinearOnMultiRefused", line,
+                               (e.threw # "") = (e.nlin = 0 /\ FinalDir(G.ops) # "single"))
+        /\ (e.threw = "" /\ Has("C12")) =>
+             /\ Chk("C12.Finite", line, SplFinite(x, e))
+             /\ Chk("C12.TerminalsZero", line, SplTerminalsZero(x, r, e))
+             /\ Chk("C12.LakesZero", line, SplLakesZero(x, r, e))
+             /\ Chk("C12.NonNegative", line, SplNonNegative(x, e))
+             /\ Chk("C12.NoReversal", line, SplNoReversal(x, r, e))
+        /\ (e.threw = "" /\ Has("C13") /\ "expect" \in DOMAIN e) =>
+             /\ Chk("MACHINERY.GeneratedCaseIsExactSolution", line, SplExactSolution(x, r, e))
+             /\ Chk("C13.NotLimited", line, e.ncorr = 0)
+             /\ Chk("C13.SolvesImplicitEquation", line, SplEncloses(x, r, e))
+  /\ UNCHANGED fvars
+
 SnapMutate(g, nm, threw, line) ==
   /\ g \in DOMAIN graphs
   /\ Has("C16") => Chk("C16.MutationRefused", line, threw # "")
